@@ -301,6 +301,7 @@ type StepResult struct {
 	Reqs                    goattypes.LockingRequests
 	Votes                   []abci.VoteInfo
 	Panic                   any
+	TxPanic                 any // a panic inside the execution-block message (recovered like baseapp does; the message fails)
 }
 
 func bigFrom(s string) *big.Int {
@@ -472,11 +473,21 @@ func (w *World) Step(st *LState, b *LBlock, wantMid bool) (*LState, *StepResult)
 		tctx, write := bctx.CacheContext()
 		var err error
 		var dq []*ethtypes.Transaction
-		dq, err = k.DequeueLockingModuleTx(tctx)
-		if err == nil {
-			res.Delivered = sim.DecodeSysTxs(dq)
-			err = k.ProcessLockingRequest(tctx, res.Reqs)
-		}
+		func() {
+			// a panic inside the message is recovered by the transaction runner (baseapp.runTx):
+			// the message fails and its writes are dropped, the block goes on
+			defer func() {
+				if p := recover(); p != nil {
+					res.TxPanic = p
+					err = fmt.Errorf("panic in the execution-block message: %v", p)
+				}
+			}()
+			dq, err = k.DequeueLockingModuleTx(tctx)
+			if err == nil {
+				res.Delivered = sim.DecodeSysTxs(dq)
+				err = k.ProcessLockingRequest(tctx, res.Reqs)
+			}
+		}()
 		if err != nil {
 			res.TxErr = err
 			res.Delivered = nil
